@@ -552,6 +552,11 @@ func (x *c1runner) check(p c1prog, r *Rng) int {
 		if cls == "" {
 			cls = c1classByDiff(p, base, res, diffs, texts...)
 		}
+		if cls == "" && x.closeInDefRule(p, texts) {
+			// fallback for pairs no other class explains: close() over a nested struct inside
+			// a definition, and the difference disappears without the close() calls
+			cls = c1clsK
+		}
 		rec := map[string]any{"name": p.name, "stream": p.stream, "p": p.src, "p_rearranged": texts, "applied": c1appliedString(applied),
 			"canon_p": c1clip(base.canon), "canon_p_rearranged": c1clip(res.canon)}
 		if cls != "" {
@@ -880,6 +885,7 @@ var c1classShape = map[string]string{
 	"top-unified-with-struct-holding-failing-comprehension":   "C",
 	"self-reference-inside-disjunction-or-comprehension":      "S",
 	"default-order-several-marked-disjunctions":                "M",
+	c1clsK: "K",
 	"list-from-field-comprehension-order":                      "L",
 	"missing-field-reference-fatal-vs-incomplete":              "",
 	"missing-field-reference-inside-comprehension-fatal-vs-incomplete": "C",
@@ -940,6 +946,17 @@ func c1Strict2(p c1prog, texts []string, cls string, found map[string]bool) (boo
 			}
 			return true, "", cls
 		}
+	}
+	if cls == c1clsK {
+		// keyed by the close()-inside-a-definition shape alone (decided by the counterfactual
+		// of closeInDefRule): the minimal pair must show it and no other shape
+		if !c1hasCloseInDef(p.src) {
+			return false, "minimal pair without a close() call over a nested struct inside a definition", cls
+		}
+		for s := range c1Shapes(p, texts) {
+			return false, "minimal pair shows shape " + s + " besides K (" + cls + ")", cls
+		}
+		return true, "", cls
 	}
 	ok, why := c1strict1(p, texts, cls, found)
 	return ok, why, cls
